@@ -51,6 +51,8 @@ func main() {
 	maxPaths := flag.Int("maxpaths", 0, "path budget per harness")
 	flag.Parse()
 	interp.DebugPC = os.Getenv("VERIF_DEBUG") != ""
+	interp.NoMergeGlobal = os.Getenv("VERIF_NOMERGE") != ""
+	interp.NoModelCacheGlobal = os.Getenv("VERIF_NOMODELCACHE") != ""
 	if *tier == "" {
 		*tier = "quick"
 	}
